@@ -26,8 +26,13 @@ def evaluate(name, src, src2, reps, base=None, lexed=None):
     if base["kind"] != "ok":
         return "skip", []
     out = []
-    d = M.compare(base, impl.analyse(src2, name))
+    other = impl.analyse(src2, name)
+    d = M.compare(base, other)
     if d is not None:
+        if isinstance(d, dict):
+            d = dict(d, only_widths=only_widths(base, other))
+        else:
+            d = {"difference": d, "only_widths": only_widths(base, other)}
         out.append((KIND_DIAG, d))
     if not any(M.has_graph(r["new"]) for r in reps):
         import lexcorr
@@ -40,8 +45,26 @@ def evaluate(name, src, src2, reps, base=None, lexed=None):
     return "ok", out
 
 
-def finding_of(stream, reps):
-    return FINDING if stream != ADM and any(M.has_graph(r["new"]) for r in reps) else None
+def only_widths(base, other):
+    """True when two analyses differ ONLY in what the recorded finding is about: the token value of a comment / literal
+    is shorter than its displayed text, so LINE_TOO_LONG near the 80-column boundary and highlight LENGTHS may change.
+    Any other difference (another code, another position, a fatal outcome) is not that finding."""
+    if base.get("kind") != "ok" or other.get("kind") != "ok":
+        return False
+
+    def norm(r):
+        # CheckCommentLineLen moves the position of a too-long comment token to (line, 1), so the POSITION of other
+        # diagnostics on that comment token follows LINE_TOO_LONG: codes and levels are compared, not positions
+        return sorted((d[0], d[2]) for d in r["diags"] if d[0] != "LINE_TOO_LONG")
+    return norm(base) == norm(other)
+
+
+def finding_of(stream, reps, diff=None):
+    if stream == ADM or not any(M.has_graph(r["new"]) for r in reps):
+        return None
+    if isinstance(diff, dict) and diff.get("only_widths") is False:
+        return None
+    return FINDING
 
 
 def _work(args):
@@ -118,7 +141,7 @@ def _work(args):
                                        "new": r["new"][:80], "base_diagnostics": len(base["diags"])})
             for kind, d in diffs:
                 res["viol"].append((kind, {"name": name, "src": src, "src2": src2, "stream": stream, "replaced": reps,
-                                           "difference": d, "finding_id": finding_of(stream, reps)}))
+                                           "difference": d, "finding_id": finding_of(stream, reps, d)}))
     return res
 
 
@@ -145,6 +168,37 @@ def edge_cases(rnd):
         reps = [{"idx": t["idx"], "kind": t["kind"], "clo": t["clo"], "chi": t["chi"], "old": t["content"], "new": new,
                  "line": t["line"], "width": t["width"]}]
         out.append((name, src, M.apply_replacements(src, [(t["clo"], t["chi"], new)]), reps))
+    return out
+
+
+def directive_like_cases():
+    """Deterministic ADMISSIBLE replacements that look like preprocessor text: an interior line of a block comment that
+    starts with `#if` / `#endif` in a file holding conditionals (a guarded header, a .c file with #ifdef), and the string
+    of an `#import` line (a string outside #include).  -> [(name, src, src2, reps)]"""
+    guard_h = (impl.HDR + "\n#ifndef DEMO_H\n# define DEMO_H\n\n/*\n   nothing to see here\n   still nothing at all\n*/\nint\tf(void);\n\n#endif\n")
+    cond_c = (impl.HDR + "\n#ifdef DEBUG\n# define LVL 1\n#endif\n\n/*\n   nothing to see here\n   still nothing at all\n*/\n" + BODY)
+    imp_c = impl.HDR + "\n#import \"libdemo.h\"\n\n" + BODY
+    out = []
+    for name, src, olds, news in (
+            ("demo.h", guard_h, ["   nothing to see here"], ["   #if (a > b) {;} + 1 "]),
+            ("demo.h", guard_h, ["   still nothing at all"], ["   #endif + {x} = 123456"]),
+            ("demo.h", guard_h, ["   nothing to see here"], ["   #ifndef X_{;}(a)-+1"]),
+            ("cond.c", cond_c, ["   nothing to see here"], ["   #else if (x) {;} +1"]),
+            ("cond.c", cond_c, ["   still nothing at all"], ["   #endif {;} = (1+2)*3"]),
+            ("imp.c", imp_c, ["libdemo.h"], ["{if;}+=-'"])):
+        tg, _ = M.targets(src, name)
+        reps = []
+        for old, new in zip(olds, news):
+            for t in tg:
+                k = t["content"].find(old)
+                if k >= 0 and len(old) == len(new):
+                    content2 = t["content"][:k] + new + t["content"][k + len(old):]
+                    if M.replace_ok_py(t["kind"], t["content"], content2):
+                        reps.append({"idx": t["idx"], "kind": t["kind"], "clo": t["clo"], "chi": t["chi"], "old": t["content"],
+                                     "new": content2, "line": t["line"], "width": t["width"]})
+                    break
+        if reps:
+            out.append((name, src, M.apply_replacements(src, [(r["clo"], r["chi"], r["new"]) for r in reps]), reps))
     return out
 
 
@@ -180,6 +234,16 @@ def run(run, tier, seed, replay=None):
     else:
         nfiles, nrep = (40, 8) if tier == "quick" else (400, 20)
         # the fixed boundary cases first: they exercise the recorded lexer behaviour on every run
+        ndir = 0
+        for name, src, src2, reps in directive_like_cases():
+            st, diffs = evaluate(name, src, src2, reps)
+            if st == "ok":
+                ndir += 1
+            for kind, diff in diffs:
+                found |= run.violation(kind, {"name": name, "src": src, "src2": src2, "stream": ADM, "replaced": reps, "difference": diff,
+                                              "finding_id": None})
+        run.count("fixed admissible replacements that look like preprocessor text (comment lines starting with #if/#endif in files "
+                  "with conditionals, the string of an #import line)", ndir, ndir)
         nedge = 0
         edge_viol = []
         for name, src, src2, reps in edge_cases(random.Random(seed)):
